@@ -253,12 +253,9 @@ func (s *scope) Close() error {
 
 	var errs []error
 
-	// Cancel context
-	if s.cancel != nil {
-		s.cancel()
-	}
-
-	// Close all children first
+	// Close all children first. This happens before the context is cancelled:
+	// a child's context may be derived from this scope's, and cancelling it
+	// would let the child's auto-close goroutine race with the loop below.
 	s.childrenMu.Lock()
 	children := make([]*scope, 0, len(s.children))
 	for child := range s.children {
@@ -271,6 +268,11 @@ func (s *scope) Close() error {
 		if err := child.Close(); err != nil {
 			errs = append(errs, fmt.Errorf("failed to close child scope: %w", err))
 		}
+	}
+
+	// Cancel context
+	if s.cancel != nil {
+		s.cancel()
 	}
 
 	// Dispose all disposable scoped instances in reverse order
